@@ -1127,6 +1127,33 @@ func sliceExprCovered(f *ssa.Function, sl *ssa.Slice, blk *ssa.BasicBlock) (stri
 	if sl.High == nil && loK {
 		return need(lo)
 	}
+	// s[:n] with n the count returned by a call that was handed s as its buffer (copy, Read,
+	// Transform, ReadFull …): by those contracts n ≤ len(s)
+	if loK && lo == 0 && sl.High != nil {
+		var call *ssa.Call
+		switch h := sl.High.(type) {
+		case *ssa.Call:
+			call = h
+		case *ssa.Extract:
+			if h.Index == 0 {
+				call, _ = h.Tuple.(*ssa.Call)
+			}
+		}
+		if call != nil {
+			name := calleeOrDyn(call.Common())
+			isFill := name == "copy" || strings.HasSuffix(name, ".Read") || strings.HasSuffix(name, "Read") || strings.HasSuffix(name, "Transform") || strings.HasSuffix(name, "io.ReadFull")
+			if bi, ok := call.Call.Value.(*ssa.Builtin); ok && bi.Name() == "copy" {
+				isFill = true
+			}
+			if isFill {
+				for _, a := range call.Call.Args {
+					if a == x {
+						return "the upper bound is the count returned by " + name + ", which was given this slice as its buffer", true
+					}
+				}
+			}
+		}
+	}
 	if hi, ok := constOf(sl.High); ok && loK && sl.High != nil {
 		if lo > hi {
 			return "", false
